@@ -144,9 +144,9 @@ def r15_2(ctx, A):
     fs = nondet_sites(fx, [f.path for f in fx.fn_list])
     kinds = {f.path for f, _, _ in fs}
     want = {'ctl_random_state', 'ctl_hash_iter', 'ctl_time', 'ctl_ptr_cast'}
-    ctx.check(R, want <= kinds, 'control-fixture', 'the scan misses fixture instances %s: checker broken' % sorted(want - kinds), kind='undecided', detail=sorted(kinds))
+    ctx.check(R, want <= kinds, 'control-fixture', 'the scan misses fixture instances %s: checker broken' % sorted(want - kinds), kind='violation', detail=sorted(kinds))
     fst = [s for s in fx.statics if s['mutable'] or s['interior_mut']]
-    ctx.check(R, len(fst) >= 2, 'control-statics', 'the static scan misses the fixture\'s static mut / atomic: checker broken', kind='undecided')
+    ctx.check(R, len(fst) >= 2, 'control-statics', 'the static scan misses the fixture\'s static mut / atomic: checker broken', kind='violation')
 
 
 def r15_3(ctx):
